@@ -10,7 +10,9 @@
 //   - within one read transaction every read is repeatable;
 //   - what a reader sees is the state after a PREFIX of the writer's commits
 //     (keys a,b are overwritten together by every commit and must be equal;
-//     the marker keys t1..t3 present must be exactly t1..tj);
+//     the marker keys t1..t3 present must be exactly t1..tj), and that prefix
+//     contains every commit that had returned before the reader began (a
+//     committed update has taken effect for every later transaction);
 //   - no deadlock, no panic; the final state is the state after all commits.
 //
 // The binary prints one JSON line (a shard result) consumed by checks/c05.
@@ -28,6 +30,7 @@ import (
 	"github.com/btcsuite/btcd/wire/v2"
 
 	"verif/engine/vsched"
+	"verif/engine/vsync"
 )
 
 type scenario struct {
@@ -51,8 +54,6 @@ type violation struct {
 	What   string      `json:"what"`
 	Replay interface{} `json:"replay"`
 }
-
-var dirSeq int
 
 type waitGroup struct{ n int }
 type wgOp struct{ w *waitGroup }
@@ -99,18 +100,46 @@ func prefixLen(v view) int { // -1 if not a prefix state
 	return j
 }
 
-func runOnce(sc scenario, prefix []int) (*vsched.Exec, []string, int) {
-	dirSeq++
-	dir := fmt.Sprintf("/dev/shm/verif-c05d-%d-%d", os.Getpid(), dirSeq)
-	os.RemoveAll(dir)
-	db, err := database.Create("ffldb", dir, wire.TestNet)
+var (
+	sharedDB  database.DB
+	sharedDir string
+)
+
+// freshDB returns the process-wide database reset to the initial state: no user
+// keys, empty commit cache (a forced flush), nothing pending.  Re-using one
+// instance avoids paying leveldb's open cost per schedule; the reset runs
+// outside the exploration (pass-through mode).
+func freshDB() database.DB {
+	if sharedDB == nil {
+		sharedDir = fmt.Sprintf("/dev/shm/verif-c05d-%d", os.Getpid())
+		os.RemoveAll(sharedDir)
+		db, err := database.Create("ffldb", sharedDir, wire.TestNet)
+		if err != nil {
+			panic(err)
+		}
+		sharedDB = db
+	}
+	ffldb.VerifSetFlushPolicy(sharedDB, 0, 1<<40) // the reset commit flushes everything
+	err := sharedDB.Update(func(tx database.Tx) error {
+		m := tx.Metadata()
+		for _, k := range []string{"a", "b", "t1", "t2", "t3"} {
+			if err := m.Delete([]byte(k)); err != nil {
+				return err
+			}
+		}
+		return nil
+	})
 	if err != nil {
 		panic(err)
 	}
-	defer func() {
-		db.Close()
-		os.RemoveAll(dir)
-	}()
+	if a, b := ffldb.VerifCacheLen(sharedDB); a != 0 || b != 0 {
+		panic("commit cache not empty after reset")
+	}
+	return sharedDB
+}
+
+func runOnce(sc scenario, prefix []int) (*vsched.Exec, []string, int) {
+	db := freshDB()
 	var problems []string
 	stale := 0
 	body := func() {
@@ -159,7 +188,10 @@ func runOnce(sc scenario, prefix []int) (*vsched.Exec, []string, int) {
 					if j < 0 {
 						problems = append(problems, fmt.Sprintf("reader sees a state that is not the state after a prefix of the commits: %v", v1))
 					} else if j < before {
-						stale++ // consistent but older than a commit that had returned (not demanded by the property)
+						// a commit that had RETURNED before this reader began is missing:
+						// that update has not "taken effect" for a later transaction
+						stale++
+						problems = append(problems, fmt.Sprintf("reader that began after commit %d had returned sees only the state after %d commits: %v", before, j, v1))
 					}
 					return nil
 				}
@@ -189,6 +221,7 @@ func runOnce(sc scenario, prefix []int) (*vsched.Exec, []string, int) {
 }
 
 func main() {
+	vsync.YieldOnUnlock = true
 	var sc scenario
 	if err := json.Unmarshal([]byte(os.Args[1]), &sc); err != nil {
 		panic(err)
@@ -213,6 +246,8 @@ func main() {
 				cls = "non-prefix-snapshot"
 			} else if strings.Contains(problems[0], "non-repeatable") {
 				cls = "non-repeatable-read"
+			} else if strings.Contains(problems[0], "had returned sees only") {
+				cls = "committed-update-invisible-to-later-reader"
 			} else if strings.Contains(problems[0], "final state") {
 				cls = "lost-commit"
 			}
@@ -231,6 +266,12 @@ func main() {
 		fmt.Println(string(b))
 		return
 	}
+	defer func() {
+		if sharedDB != nil {
+			sharedDB.Close()
+			os.RemoveAll(sharedDir)
+		}
+	}()
 	var explore func(prefix []int)
 	explore = func(prefix []int) {
 		if time.Now().After(deadline) {
